@@ -28,6 +28,12 @@ CLAIMED = {
     "C12": dict(
         text="Theorems over the include-walk model (abstract file system without symbolic links, any finite include graph): the walk never exhausts its fuel (recursion depth bounded by the number of files), acceptance implies that every include of every reachable file resolves and parses and that no reachable file lies on a cycle of any length, and each file is loaded once. Resolution (first match over -I directories then the main file's directory; relative for paths with a directory part), the accept/reject verdict and the loaded set are compared with the real pipeline and with an independently written reachability Spec on generated directory trees every run. The converse (rejection only when the Spec says so) is decided by that comparison, not proved.",
         ref="7 (C12)", technique="Coq proof (termination, soundness of acceptance, load-once) + differential correspondence on real directory trees + independent reachability Spec"),
+    "C13": dict(
+        text="Theorem: the StructVerifier's verdict and every size it assigns are the same for every dependency-respecting order of the structs (the order comes out of a hash-map based topological sort), via a fixed-point characterisation of the accepted store. Everything else that could make output depend on the run - real hash seeds, working directory, absolute location, path spelling, symbolic links - is outside an executable Gallina model and is decided by compiling every generated file set repeatedly under those variations for all six backend outputs and comparing names and bytes. Partial: the sampled dimensions are not proved.",
+        ref="7 (C13)", technique="Coq proof (order independence of the verifier) + metamorphic runs of the real binary (reruns, cwd, relocation, spellings, symlink)"),
+    "C19": dict(
+        text="Theorems over the driver model whose order of effects is regenerated from idlc/src/main.rs each run (all opens after the last validation pass and after generation, create+truncate on every open, marking before content): a rejected input has no effect on the file system; an accepted single-file run leaves exactly marking ++ content in the named file whatever it held before and touches nothing else; the Rust generator's lower-cased file keys collapse case-colliding interfaces (refutation witness = known finding). Tie: the real binary in scratch directories with pre-existing targets and bystanders, one rejected variant per stage, listing/bytes/mtimes compared; Rust file names against the model and the Spec.",
+        ref="7 (C19)", technique="Coq proof over an effect model instantiated with regenerated DriverFacts + before/after file-system snapshots of the real binary"),
 }
 NOTE = ("Trusted: Coq 8.16.1 kernel (vm_compute used; no native_compute), no axioms; lib/translate.py; the harness crate; "
         "python driver and scrapers. Modelled rather than verified: all of /repo (theorems are about coq/theories; the tie is "
